@@ -181,6 +181,13 @@ def encoder_settings(tier, seed):
     wide = [([any_], [opt_] * 3, ()), ([opt_, opt_], [opt_] * 3, ()), ([any_, any_], [opt_, opt_], ()),
             ([(('range', 0, 2), True)], [(('range', 0, 2), True)] * 2, ()), ([one_, one_], [any_] * 3, ()),
             ([one_, one_, one_], [any_, any_], ()), ([any_, opt_], [opt_, opt_, opt_], ((0, 0),))]
+    # three nodes on one side with every existence pattern (conditional nodes): the shapes pattern encoders match,
+    # also through their transposed settings
+    two_ = (('list', (2,)), False)
+    cond3 = [([one_] * 3, [any_] * 2, ()), ([any_] * 2, [one_] * 3, ()), ([one_], [opt_] * 3, ()), ([opt_] * 3, [one_], ()),
+             ([two_], [opt_] * 3, ()), ([any_], [opt_] * 3, ())]
+    for w in (cond3[:4] if tier == 'quick' else cond3):
+        sp.append(w + ('all-patterns',))
     for w in (wide if tier == 'quick' else wide + [([any_], [opt_] * 4, ()), ([any_, any_], [opt_] * 3, ()), ([any_, any_], [any_, opt_], ())]):
         sp.append(w + ('present-only',))
     return sp
